@@ -28,10 +28,9 @@ func (g *vGateTSO) Commit(rev uint64) {
 // the data it carries — also for reads issued while a stored write is not yet reported readable
 // (a client listing at the revision its own write returned).
 func VerifC02Header() {
-	w := vNewWorld(zzverif.Param("keys", 1))
+	gate := &vGateTSO{}
+	w := vNewWorldTSO(zzverif.Param("keys", 1), func(t tso.TSO) tso.TSO { gate.TSO = t; return gate })
 	w.history()
-	gate := &vGateTSO{TSO: w.b.tso}
-	w.b.tso = gate
 	gate.mu.Lock()
 	key := w.key("k")
 	val := zzverif.Bytes("v", 1)
